@@ -22,6 +22,10 @@ class LocalAdapter(Hub):
         self.jobs = {}  # (generation, tid) -> dict(name, script, deps, proc)
         self.by_script = {}
         self.n_conn = 0
+        self.cancel_log = []
+        self.reply_faults = {}  # k-th readline of the current invocation -> 'garbage' | 'eof'
+        self.n_readline = 0
+        self.fired = {}
         self.blocked_clients = 0
         self.start_pool()
 
@@ -35,6 +39,7 @@ class LocalAdapter(Hub):
                               hash_salt=w.knobs.get("hash_seed", 0) + self.generation)
         self.pool.__enter__()
         self.pool.on_enqueued_cb = self._enqueued
+        self.pool.on_cancel_cb = lambda tid: self.cancel_log.append(tid)
         self.pool.table.listeners.append(self)
         self.by_script = {}
         w.trace.log("pool_started", generation=self.generation, cores=self.cores)
@@ -118,9 +123,26 @@ class LocalAdapter(Hub):
 
     def client_send(self, conn, data):
         self.world._seam_event("sock:send", data.decode("utf-8", "replace")[:40])
+        if getattr(conn, "reset", False):
+            raise BrokenPipeError(32, "Broken pipe")
         conn.send(data)
+        self.world._cmd_after("sock")
 
     def client_readline(self, conn):
+        self.n_readline += 1
+        kind = self.reply_faults.get(self.n_readline)
+        if kind is not None:
+            # the request is processed by the server, but the client never sees a proper reply
+            self.pump()
+            conn.take_lines()
+            self.fired[kind] = self.fired.get(kind, 0) + 1
+            self.world.fault("reply_" + kind)
+            self.world.trace.log("reply_fault", k=self.n_readline, kind=kind)
+            if kind in ("eof", "rst"):
+                conn.abort()
+                conn.reset = kind == "rst"  # the peer's RST has arrived: later sends fail with EPIPE
+                return ""
+            return "garbage ###\n"
         pool = self.pool
         self.world.pool_running = True
         try:
